@@ -120,13 +120,31 @@ def declSum : List Entry → Int
   | [] => 0
   | e :: r => e.declared + declSum r
 
-theorem sizeGuard_eq (a b : Int) : cmpOp Facts.C12.sizeGuardOp a b = decide (a > b) := by
-  have : Facts.C12.sizeGuardOp = ">" := by decide
-  simp [cmpOp, this]
+/-- the repaired size guard in exact arithmetic: a negative entry size (declared size >= 2^63) or a
+running total above the limit -/
+theorem sizeGuard_eq (l : Limits) (t : Int) (e : Entry) :
+    sizeGuard l t e = decide (e.declared < 0 ∨ t + e.declared > l.size) := by
+  have h1 : Facts.C12.sizeGuardOp = ">" := by decide
+  have h2 : Facts.C12.sizeGuardRejectsNegative = true := by decide
+  unfold sizeGuard
+  rw [h2]
+  simp only [cmpOp, h1, if_true, Bool.true_and]
+  by_cases a : e.declared < 0 <;> by_cases b : t + e.declared > l.size <;> simp [a, b]
+
+/-- for int64-valued sizes and limits, the wrapped test of the code (`unzipSize < 0 || unzipSize >
+limit` on the 64-bit sum) is the exact test `total > limit` -/
+theorem guard_wrap_exact (t d size : Int) (ht0 : 0 ≤ t) (ht : t < 9223372036854775808) (hd0 : 0 ≤ d)
+    (hd : d < 9223372036854775808) (hs : size < 9223372036854775808) :
+    (wrap64 (t + d) < 0 ∨ wrap64 (t + d) > size) ↔ t + d > size := by
+  unfold wrap64
+  simp only []
+  have hm : (t + d) % 18446744073709551616 = t + d := Int.emod_eq_of_lt (by omega) (by omega)
+  rw [hm]
+  split <;> omega
 
 theorem readZip_cons (l : Limits) (e : Entry) (rest : List Entry) (st : St) (t : Int) (ws : Nat) :
     readZip l st t ws (e :: rest) =
-      if cmpOp Facts.C12.sizeGuardOp (t + e.declared) l.size then .sizeErr st else
+      if sizeGuard l t e then .sizeErr st else
       if (spillStep l (if Facts.C12.dupReplaces then dropPart st (normName e.name) else st) (normName e.name) e).2 then
         readZip l (spillStep l (if Facts.C12.dupReplaces then dropPart st (normName e.name) else st) (normName e.name) e).1
           (t + e.declared) (if isSheet (normName e.name) then ws + 1 else ws) rest
@@ -162,8 +180,8 @@ running total on the rest of the entries -/
 theorem readZip_cons_continue (l : Limits) (e : Entry) (rest : List Entry) (st : St) (t : Int) (ws : Nat)
     (hg : ¬ (t + e.declared > l.size)) (hio : e.io ≠ .open) (hnn : 0 ≤ e.declared) :
     readZip l st t ws (e :: rest) = readZip l (contSt l st e) (t + e.declared) (contWs ws e) rest := by
-  have hge : cmpOp Facts.C12.sizeGuardOp (t + e.declared) l.size = false := by
-    rw [sizeGuard_eq]; exact decide_eq_false hg
+  have hge : sizeGuard l t e = false := by
+    rw [sizeGuard_eq]; exact decide_eq_false (by rintro (h | h); exact absurd hnn (Int.not_le.2 h); exact hg h)
   rw [readZip_cons, if_neg (by rw [hge]; exact Bool.false_ne_true)]
   unfold contSt contWs
   by_cases h : (spillStep l (if Facts.C12.dupReplaces then dropPart st (normName e.name) else st) (normName e.name) e).2 = true
@@ -183,8 +201,8 @@ theorem readZip_verdict (l : Limits) : ∀ (es : List Entry) (st : St) (t : Int)
   | e :: rest, st, t, ws, hio, hnn => by
     by_cases hg : t + e.declared > l.size
     · have hr : readZip l st t ws (e :: rest) = .sizeErr st := by
-        have hge : cmpOp Facts.C12.sizeGuardOp (t + e.declared) l.size = true := by
-          rw [sizeGuard_eq]; exact decide_eq_true hg
+        have hge : sizeGuard l t e = true := by
+          rw [sizeGuard_eq]; exact decide_eq_true (Or.inr hg)
         rw [readZip_cons, if_pos hge]
       constructor
       · constructor
